@@ -10,6 +10,9 @@ use std::collections::btree_map::Entry;
 
 verus! {
 
+// the code generator runs on a 64-bit host: u32 -> usize casts are lossless (listed in every evidence file)
+global size_of usize == 8;
+
 macro_rules! opaque { ($($n:ident = $t:ty;)*) => { $( #[verifier::external_type_specification] #[verifier::external_body] pub struct $n($t); )* } }
 macro_rules! transp { ($($n:ident = $t:ty;)*) => { $( #[verifier::external_type_specification] pub struct $n($t); )* } }
 macro_rules! opaque1 { ($($n:ident = $t:ident;)*) => { $( #[verifier::external_type_specification] #[verifier::external_body] #[verifier::accept_recursive_types(T)] pub struct $n<T>(naga::$t<T>); )* } }
@@ -178,9 +181,40 @@ pub broadcast axiom fn axiom_block_height(b: &naga::Block, i: int, k: int)
 pub broadcast axiom fn axiom_string_obeys_cmp()
     ensures #[trigger] vstd::laws_cmp::obeys_cmp::<String>();
 
+// ---------------- strings: case conversion as an uninterpreted function of the input ----------------
+pub uninterp spec fn upper(s: Seq<char>) -> Seq<char>;
+pub assume_specification[ str::to_uppercase ](s: &str) -> (r: String)
+    ensures r@ == upper(s@);
+
+// ---------------- naga layout helpers (naga's numbers are taken as the WGSL ones: DESIGN 4.7) ----------------
+#[verifier::external_type_specification] #[verifier::external_body] pub struct ExGlobalCtx<'a>(naga::proc::GlobalCtx<'a>);
+pub uninterp spec fn type_size(m: &naga::Module, t: naga::TypeInner) -> u32;
+pub uninterp spec fn ctx_module<'a>(c: naga::proc::GlobalCtx<'a>) -> &'a naga::Module;
+pub assume_specification<'a>[ naga::Module::to_ctx ](m: &'a naga::Module) -> (r: naga::proc::GlobalCtx<'a>)
+    ensures ctx_module(r) == m;
+pub assume_specification[ naga::TypeInner::size ](t: &naga::TypeInner, c: naga::proc::GlobalCtx<'_>) -> (r: u32)
+    ensures r == type_size(ctx_module(c), *t);
+
+// ---------------- derived PartialEq of naga enums is structural equality ----------------
+pub assume_specification[ <naga::ShaderStage as PartialEq>::eq ](a: &naga::ShaderStage, b: &naga::ShaderStage) -> (r: bool)
+    ensures r == (*a == *b);
+pub assume_specification[ <naga::AddressSpace as PartialEq>::eq ](a: &naga::AddressSpace, b: &naga::AddressSpace) -> (r: bool)
+    ensures r == (*a == *b);
+
+// ---------------- arrays ----------------
+pub assume_specification<T, const N: usize, F: FnMut(T) -> U, U>[ <[T; N]>::map ](a: [T; N], f: F) -> (r: [U; N])
+    requires forall|i: int| 0 <= i < N ==> f.requires((#[trigger] a@[i],)),
+    ensures forall|i: int| 0 <= i < N ==> f.ensures((a@[i],), #[trigger] r@[i]);
+// `let [x, y, z] = a;` (slice patterns are not supported by Verus): the extracted code destructures through this helper
+#[verifier::external_body]
+pub fn take3<T>(a: [T; 3]) -> (r: (T, T, T)) ensures r.0 == a@[0], r.1 == a@[1], r.2 == a@[2] { let [x, y, z] = a; (x, y, z) }
+
 // ---------------- Option helpers missing from vstd ----------------
 pub assume_specification<'a, T: Copy>[ Option::<&'a T>::copied ](o: Option<&'a T>) -> (r: Option<T>)
     ensures r == (match o { Some(x) => Some(*x), None => None });
+
+pub assume_specification<T, U>[ Option::<(T, U)>::unzip ](o: Option<(T, U)>) -> (r: (Option<T>, Option<U>))
+    ensures r == (match o { Some(p) => (Some(p.0), Some(p.1)), None => (None, None) });
 
 // ---------------- BTreeMap::entry().or_insert() (pattern of vstd's HashMap entry specs) ----------------
 pub uninterp spec fn ekey<'a, K, V, A: core::alloc::Allocator + Clone>(e: Entry<'a, K, V, A>) -> K;
